@@ -432,9 +432,15 @@ class Executor:
                             nxt.append((s2, mv))
                             continue
                         d = s2.heap[mv.oid] if isinstance(mv, Ref) else None
-                        if not isinstance(d, DictObj) or d.tail is not None:
-                            raise Unsupported("** of a non-concrete dict")
-                        nxt.append((s2, acc + list(d.entries)))
+                        if not isinstance(d, DictObj):
+                            raise Unsupported("** of a non-dict")
+                        if d.tail is not None:
+                            # symbolic mapping: spliced as a whole; sound only if the merged mappings have disjoint
+                            # keys (recorded as an assumption of the function under analysis)
+                            s2.log.append(("assume-disjoint-keys-in-dict-merge",))
+                            nxt.append((s2, acc + list(d.entries) + [("**tail", d.tail)]))
+                        else:
+                            nxt.append((s2, acc + list(d.entries)))
                     continue
                 for s2, kv in self.eval(k, s):
                     if isinstance(kv, Exc):
@@ -443,7 +449,14 @@ class Executor:
                     for s3, vv in self.eval(vexpr, s2):
                         nxt.append((s3, vv if isinstance(vv, Exc) else acc + [(kv, vv)]))
             results = nxt
-        return self.bind(results, lambda s, ents: [(s, self.alloc(s, DictObj(self._dedup(s, ents))))])
+        def mk(s, ents):
+            if not any(isinstance(k, str) and k == "**tail" for k, _ in ents):
+                return [(s, self.alloc(s, DictObj(self._dedup(s, ents))))]
+            tail = L.LT([])
+            for k, v in ents:
+                tail = tail.cat(v if isinstance(k, str) and k == "**tail" else L.LT([L.Unit(Tup([k, v]))]))
+            return [(s, self.alloc(s, DictObj([], tail)))]
+        return self.bind(results, mk)
 
     def _dedup(self, st: State, ents: List[Tuple[Any, Any]]) -> List[Tuple[Any, Any]]:
         out: List[Tuple[Any, Any]] = []
